@@ -4,7 +4,15 @@ from .runner import Harness, Module
 from . import shapes as S
 
 CODES = ['p', 'w', 'i', 'm']
-FIELD = {'f': ('u8', {'ignore': False}), 'p': ('u8', None), 'w': ('u16', None), 'i': ('u8', {'ignore': True}), 'm': ('u8', {'method': 'hash_m'})}
+FIELD = {'f': ('u8', {'ignore': False}), 'p': ('u8', None), 'w': ('u16', None), 'i': ('u8', {'ignore': True}), 'm': ('u8', {'method': 'hash_m'}),
+         'd': ('PhantomData', None),
+         's': ("&'static [u8]", None),     # a byte-slice reference: fed through its own Hash (length prefix + bytes), never as raw bytes
+         'R': ("&'static u8", None)}    # a *user* type named like core's PhantomData (declared in the module): it carries data and is fed
+USER_PHANTOM = '''#[derive(PartialEq, Debug)]
+pub struct PhantomData(pub u8);
+impl core::hash::Hash for PhantomData { fn hash<HH: core::hash::Hasher>(&self, s: &mut HH) { s.write_u8(self.0 ^ 0x55) } }
+impl Sym for PhantomData { fn sym() -> Self { PhantomData(kani::any()) } }
+'''
 FUNCTIONS = ['<T as ::core::hash::Hash>::hash::<Rec> (educe expansion, struct and enum), observed through a recording Hasher']
 
 
@@ -133,6 +141,15 @@ def gen(tier, seed):
         n += 1
     for k, sh in enumerate([('struct', [('named', ['i', 'm', 'i'])]), ('struct', [('tuple', ['m', 'i'])]), ('enum', [('tuple', ['i', 'm']), ('named', ['m', 'i', 'i']), ('unit', [])])]):
         mods.append(emit(f'm{n:04d}', f'{S.shape_id(sh)}/peq=0/single fed field with a method', sh, False))
+        n += 1
+    for sh in [('struct', [('named', ['p', 'd'])]), ('struct', [('tuple', ['d', 'i'])]), ('enum', [('tuple', ['d', 'p']), ('named', ['i', 'd']), ('unit', [])])]:
+        mods.append(emit(f'm{n:04d}', f'{S.shape_id(sh)}/peq=0/field type named PhantomData', sh, False, pre=USER_PHANTOM))
+        n += 1
+    for sh in [('struct', [('named', ['s', 's'])]), ('struct', [('tuple', ['R', 's'])]), ('enum', [('tuple', ['s', 'p']), ('named', ['s', 's', 'R']), ('unit', [])])]:
+        mods.append(emit(f'm{n:04d}', f'{S.shape_id(sh)}/peq=0/reference and byte-slice fields', sh, False))
+        n += 1
+    for sh in S.ignore_run_shapes('p', 'w'):
+        mods.append(emit(f'm{n:04d}', f'{S.shape_id(sh)}/peq=0/runs of ignored fields', sh, False))
         n += 1
     # wide shapes (13 fields: positions >= 10 sort before 2 as strings; names not alphabetical): a hasher that keeps the u8 writes in order
     wide_h = '''pub struct WideH { pub b: [u8; 16], pub n: usize }
